@@ -110,6 +110,10 @@ const Changelog = `- semver: "1.1.0-1"
       - bookworm
   changes:
     - note: "first release note"
+- semver: "0.9.0"
+  date: "2009-10-01T10:00:00Z"
+  changes:
+    - note: "entry without packager"
 `
 
 // T0 is the base instant; every fixture mtime lies in 2001..2005.
@@ -146,6 +150,15 @@ func Spec(big int) []Node {
 		{Rel: "tree/sub/y", Kind: "file", Mode: 0o600, Data: text("y", 2048)},
 		{Rel: "tree/sub/l", Kind: "symlink", Target: "../x"},
 		{Rel: "tree/emptydir", Kind: "dir", Mode: 0o750},
+		// on-disk symlinks whose targets are not in canonical form: they must be shipped literally
+		{Rel: "links", Kind: "dir", Mode: 0o755},
+		{Rel: "links/store", Kind: "dir", Mode: 0o755},
+		{Rel: "links/store/lib.so.1.2", Kind: "file", Mode: 0o755, Data: Noise(777, 21)},
+		{Rel: "links/dot", Kind: "symlink", Target: "./store/lib.so.1.2"},
+		{Rel: "links/updown", Kind: "symlink", Target: "store/../store/lib.so.1.2"},
+		{Rel: "links/dirslash", Kind: "symlink", Target: "store/"},
+		{Rel: "links/plain", Kind: "symlink", Target: "store/lib.so.1.2"},
+		{Rel: "links/dangling", Kind: "symlink", Target: "../nowhere//x"},
 		{Rel: "scripts", Kind: "dir", Mode: 0o755},
 		{Rel: "doc", Kind: "dir", Mode: 0o755},
 		{Rel: "doc/README", Kind: "file", Mode: 0o644, Data: text("readme", 120)},
